@@ -138,7 +138,9 @@ def transform_case(draw, cls, nsettings=2, nmin=1, nmax=20):
         settings.append({"p": draw(params(cls, ctor)),
                          "u": draw(coords(cls, nmin, nmax))})
     return {"cls": cls, "ctor": ctor, "settings": settings,
-            "via": draw(st.sampled_from(["class", "get_transform"]))}
+            "via": draw(st.sampled_from(["class", "get_transform"])),
+            "how": draw(st.sampled_from(["by-name", "by-name", "vector",
+                                         "attribute"]))}
 
 
 # ------------------------------------------------------------- construction
@@ -153,10 +155,23 @@ def make(case):
     return t
 
 
-def apply(t, p):
-    """Set parameters / constants by name on an existing instance."""
+def apply(t, p, how="by-name"):
+    """Set parameters / constants on an existing instance: by key, by
+    attribute, or by assigning the whole parameter / constant vectors."""
+    if how == "vector":
+        for vec in (t.params, t.constants):
+            if vec.nval and all(str(n) in p for n in vec.names):
+                vec.values = [p[str(n)] for n in vec.names]
+            else:
+                for n in vec.names:
+                    if str(n) in p:
+                        vec[str(n)] = p[str(n)]
+        return
     for k, v in p.items():
-        t[k] = v
+        if how == "attribute":
+            setattr(t, k, v)
+        else:
+            t[k] = v
 
 
 def getp(t, name):
